@@ -47,6 +47,8 @@ pub struct MenuOpt {
     pub recover_receivers: Vec<Option<String>>,
     /// admin-forced recovery of the refundable packets of the staker (all ids; with a repeated id)
     pub recover_forced: bool,
+    /// forced recovery also for the other (receiver, denom) groups, with non-adjacent repeats
+    pub recover_forced_groups: bool,
     /// the transfer module answers the next transfer with no reply data / undecodable data (deviation)
     pub reply_faults: bool,
     pub fee_withdraw: Vec<Rel>,
@@ -84,6 +86,7 @@ impl MenuOpt {
             recover_paginated: false,
             recover_receivers: vec![],
             recover_forced: false,
+            recover_forced_groups: false,
             reply_faults: false,
             fee_withdraw: vec![Rel::Exact],
             halt_resume: false,
@@ -282,6 +285,27 @@ pub fn std_menu(s: &Sim, o: &MenuOpt) -> Vec<Act> {
                 a.push(recover(&adm(), None, Some(rep), None));
                 if ids.len() >= 2 {
                     a.push(recover(&adm(), None, Some(vec![ids[0], ids[0], ids[1]]), None));
+                }
+            }
+            if o.recover_forced_groups {
+                // every other (receiver, denom) group of refundable packets: all ids, and the shapes
+                // [a,b,a] / [b,a,a,b] / [a,a,b] in which a repeated id is not next to its first occurrence
+                let mut groups: std::collections::BTreeMap<(String, String), Vec<u64>> = Default::default();
+                for p in s.refundable() {
+                    if !(p.receiver == staker && p.denom == sdn) {
+                        groups.entry((p.receiver.clone(), p.denom.clone())).or_default().push(p.seq);
+                    }
+                }
+                for ((recv, _), ids) in groups.into_iter().take(3) {
+                    let rc = Some(recv);
+                    a.push(recover(&adm(), None, Some(ids.clone()), rc.clone()));
+                    if ids.len() >= 2 {
+                        let (x, y) = (ids[0], ids[ids.len() - 1]);
+                        a.push(recover(&adm(), None, Some(vec![x, y, x]), rc.clone()));
+                        a.push(recover(&adm(), None, Some(vec![y, x, x, y]), rc.clone()));
+                    } else {
+                        a.push(recover(&adm(), None, Some(vec![ids[0], ids[0]]), rc.clone()));
+                    }
                 }
             }
         }
